@@ -17,7 +17,7 @@ InitGrids ==
   /\ phase = "seed"
   /\ deg \in Degrees
   /\ \E a, b \in Pool : a < b /\ raw = <<a, b>>
-Next ==
+NextGrids ==
   /\ phase = "seed"
   /\ phase' = "grid"
   /\ deg' = deg
@@ -28,33 +28,35 @@ Next ==
            /\ Cardinality(full) > deg
            /\ raw' = [k \in 1..Cardinality(full) |-> RFrac(a[k], S)]
 InitRaw ==
-  /\ phase = "grid"
+  /\ phase = "rawseed"
   /\ deg \in 0..3
-  /\ raw \in UNION {[1..k -> {RFrac(q, 4) : q \in 1..4}] : k \in 1..4}
+  /\ raw \in [1..1 -> 1..4]
+NextRaw ==
+  /\ phase = "rawseed"
+  /\ phase' = "grid"
+  /\ deg' = deg
+  /\ \E tail \in UNION {[1..k -> 1..4] : k \in 0..3} :
+        raw' = [k \in 1..(1 + Len(tail)) |-> RFrac(IF k = 1 THEN raw[1] ELSE tail[k - 1], 4)]
+
+Next == NextGrids \/ NextRaw
 
 Mid(gg) == LET pp == EvalSet(gg) IN Eager([e \in 1..(Len(gg) - 1) |-> pp[2 * e]])
 Live == phase = "grid" /\ Accepts(raw, deg)
 
-InvBasis ==
+InvC34 ==
   Live =>
     LET g == SortGrid(raw)
-        pts == EvalSet(g)
-        tab == EvalTable(g, deg, pts)
-    IN C34_All(g, deg, pts, tab)
-InvAreas ==
-  Live =>
-    LET g == SortGrid(raw) IN
-    \A j \in 0..(Len(g) - 1) :
-       LET as == Areas(g, deg, j) IN
-       /\ Len(as) >= 1
-       /\ \A p \in 1..Len(as) : C34_AreaLagrange(g, j, as[p]) /\ C34_BlockCoversArea(g, as[p])
-InvReinterp ==
-  Live =>
-    LET g == SortGrid(raw)
+        A == AllAreas(g, deg)
         pts == EvalSet(g)
         mid == Mid(g)
-    IN /\ C34_Reinterp(g, deg, g, GetInterpolation(g, deg, g))
-       /\ C34_Reinterp(g, deg, pts, GetInterpolation(g, deg, pts))
-       /\ C34_Reinterp(g, deg, mid, GetInterpolation(g, deg, mid))
+        head == Eager([e \in 1..Len(g) |-> pts[e]])    \* same length as the grid, not the grid
+    IN /\ \A j \in 1..Len(g) :
+            /\ Len(A[j]) >= 1
+            /\ \A p \in 1..Len(A[j]) :
+                  C34_AreaLagrange(g, j - 1, A[j][p]) /\ C34_BlockCoversArea(g, A[j][p])
+       /\ C34_All(g, deg, pts, EvalTableA(A, pts))
+       /\ C34_Reinterp(g, deg, g, GetInterpolationA(A, g, g))
+       /\ C34_Reinterp(g, deg, head, GetInterpolationA(A, g, head))
+       /\ C34_Reinterp(g, deg, mid, GetInterpolationA(A, g, mid))
 InvReject == phase = "grid" => C34_Rejection(raw, deg, ~Accepts(raw, deg))
 =============================================================================
